@@ -151,7 +151,8 @@ func runC13(c *runCtx) {
 			bad := append([]string{}, lines...)
 			if kind == "ndjson" {
 				bad[d] = []string{`{"a":`, `[1,2`, `{"a":1}}`, `nope`, `{"a" 1}`, `{`, `[`, `"`, `{"a":1} {"a":2}`, `[3,4]x`, `1 apple`,
-					`{"b":"\u00G1"}`, `"\uZZZZ"`, `{"a":"\u12"}`, `["\x41"]`, `{"k\u00g0":1}`, `["\u00@0"]`, "[\"\\u00`0\"]", `{"a":tr}`, `{"a":nul}`}[r.Intn(20)]
+					`{"b":"\u00G1"}`, `"\uZZZZ"`, `{"a":"\u12"}`, `["\x41"]`, `{"k\u00g0":1}`, `["\u00@0"]`, "[\"\\u00`0\"]", `{"a":tr}`, `{"a":nul}`,
+					"\"abc\\", "\"\\", "\"a\\\\\\", "[\"x\\", "{\"k\":\"v\\", "\"abc", "\"a\\u12", "-", "1e", "1.", "tru"}[r.Intn(31)]
 			} else {
 				bad[d] = bad[d] + sep + "extra"
 			}
@@ -180,6 +181,24 @@ func runC13(c *runCtx) {
 		}
 		// single-record / single-column files must not be tables
 		c.c13Case(kind+"-one-line", []byte(lines[0]+nl), 0, 0)
+	}
+	// blank and white-space-only lines at the start, in the middle and at the end of streams (the scanner state is
+	// recycled from whatever was parsed before: a line without any value must not inherit anything from it)
+	for _, blank := range []string{"", " ", "\t", "  \t "} {
+		for _, body := range [][]string{{`{"a":1}`, `{"b":2}`}, {`[1]`, `[2]`, `[3]`}, {`"s"`, `"t"`}, {`1`, `2`}} {
+			for pos := 0; pos <= len(body); pos++ {
+				ls := append(append(append([]string{}, body[:pos]...), blank), body[pos:]...)
+				for _, nl := range []string{"\n", "\r\n"} {
+					x := []byte(strings.Join(ls, nl) + nl)
+					c.c13Case("blank-line", x, 0, 0)
+					c.c13Case("blank-line", x, uint32(len(x)), 0)
+				}
+			}
+		}
+		for _, only := range []string{blank + "\n", blank + "\n" + blank + "\n", blank + "\n" + blank + "\n" + blank + "\n"} {
+			c.c13Case("blank-only", []byte(only), 0, 0)
+			c.c13Case("blank-only", []byte(only), uint32(len(only)), 0)
+		}
 	}
 	for _, s := range []string{"{\"a\":\n{\"b\":\n", "{\"a\":1}\n\n{\"b\":2}\n", "{\"a\":1}\n  \n[2]\n", "1\n2\n3\n", "{\"a\":1}\n", "a\n1\n2\n", "a,b\n", "a,b\n1,2", "a,b\n1,2\n3", "a,b\r\n1,2\r\n3,4", "\"a\",\"b\"\n\"1\",\"2\"\n"} {
 		for _, l := range limitsFor(len(s)) {
